@@ -36,6 +36,7 @@ func kernelRules(c *Ctx, p *Program, prop string, fns []*ssa.Function, what stri
 func checkC03(c *Ctx) {
 	p := mustLoad(c, K1)
 	eff := NewEffects(p)
+	argRoleLint(c, p, "ecc/*", "ecc/*/twistededwards", "ecc/*/bandersnatch")
 	pkRe := regexp.MustCompile(`^ecc(/[a-z0-9-]+(/twistededwards|/bandersnatch)?)?$`)
 	var fns []*ssa.Function
 	for _, fn := range libFuncs(p) {
